@@ -1,6 +1,7 @@
 import FcpptProofs.C14.Old
 import FcpptProofs.C14.Bits
 import FcpptProofs.C14.Member
+import FcpptProofs.C14.Neighbour
 /-!
 # C14 — vector, dim and matrix arithmetic obeys the exact ring and module laws
 
@@ -603,6 +604,89 @@ theorem row_mulAssignScalar {len r c : Nat} (m : MatRef len r c) (i : Fin r) (s 
     simpa [load_atR, smulR, Mat.atRC] using this
   · rw [if_neg hi, ← load_atRC, ← load_atRC]
     exact mulAssignScalar_frame (m.atR i) s mem _ fun k => Lemma.rows_disjoint m hi j k
+
+/-! ## 11. neighbouring API: vector ∘ dim, contents, is_quadratic, to_dim / to_vector, unit, transform_point / direction, infinity norm -/
+
+/-- `vector + dim`, `vector - dim`, `vector * dim` are component-wise -/
+theorem get_vecDimOps {n : Nat} (l r : Vec n) (i : Fin n) :
+    (addD l r).get i = l.get i + r.get i ∧ (subD l r).get i = l.get i - r.get i ∧ (mulD l r).get i = l.get i * r.get i := by
+  simp [addD, subD, mulD, dimMap]
+
+/-- `vector / dim` is `vector / vector` on the components (so `divV_some`, `divV_none` describe it) -/
+theorem divD_eq_divV {n : Nat} (l r : Vec n) : divD l r = divV l r := rfl
+
+/-- `dim::contents` is the product of the components (1 for dimension 0) -/
+theorem contents_eq_prod {n : Nat} (d : Vec n) : contents d = ∏ i, d.get i := Lemma.contents_eq_prod d
+
+theorem isQuadratic_iff {n : Nat} (d : Vec (n + 1)) : isQuadratic d = true ↔ ∀ i, d.get i = d.get 0 := Lemma.isQuadratic_iff d
+
+/-- `to_dim`, `to_vector` keep every component -/
+theorem get_toDifferent {n : Nat} (s : Vec n) (i : Fin n) : (toDifferent s).get i = s.get i := Lemma.get_toDifferent s i
+
+theorem get_unit (n axis : Nat) (i : Fin n) : (unit n axis).get i = if i.val = axis then 1 else 0 := Lemma.get_unit n axis i
+
+/-- `transform_point(m, v)`: the first three components of `m · (v, 1)` -/
+theorem get_transformPoint (m : Mat 4 4) (v : Vec 3) (i : Fin 3) :
+    (m.transformPoint v).get i =
+      m.atRC i.castSucc 0 * v.get 0 + m.atRC i.castSucc 1 * v.get 1 + m.atRC i.castSucc 2 * v.get 2 + m.atRC i.castSucc 3 := by
+  have h := congrFun (Lemma.toFun_mulVec m (pushBack v 1)) i.castSucc
+  simp only [Mat.transformPoint, Lemma.get_narrowCast]
+  simp only [Lemma.Storage.toFun_apply] at h
+  rw [show (⟨i.val, _⟩ : Fin 4) = i.castSucc from rfl, h]
+  simp [Matrix.mulVec, dotProduct, Fin.sum_univ_four, Lemma.get_pushBack]
+
+/-- `transform_direction(m, v)`: the first three components of `m · (v, 0)` -/
+theorem get_transformDirection (m : Mat 4 4) (v : Vec 3) (i : Fin 3) :
+    (m.transformDirection v).get i = m.atRC i.castSucc 0 * v.get 0 + m.atRC i.castSucc 1 * v.get 1 + m.atRC i.castSucc 2 * v.get 2 := by
+  have h := congrFun (Lemma.toFun_mulVec m (pushBack v 0)) i.castSucc
+  simp only [Mat.transformDirection, Lemma.get_narrowCast]
+  simp only [Lemma.Storage.toFun_apply] at h
+  rw [show (⟨i.val, _⟩ : Fin 4) = i.castSucc from rfl, h]
+  simp [Matrix.mulVec, dotProduct, Fin.sum_univ_four, Lemma.get_pushBack]
+
+/-- a translation moves points and leaves directions alone; a scaling scales both -/
+theorem transformPoint_translation (tx ty tz : Int) (v : Vec 3) (i : Fin 3) :
+    ((Mat.translation tx ty tz).transformPoint v).get i = v.get i + ![tx, ty, tz] i := by
+  rw [get_transformPoint]
+  have hm := toMatrix_translation tx ty tz
+  have e : ∀ a b, (Mat.translation tx ty tz).atRC a b = !![1, 0, 0, tx; 0, 1, 0, ty; 0, 0, 1, tz; 0, 0, 0, 1] a b := fun a b => by rw [← hm]; rfl
+  simp only [e]
+  fin_cases i <;> simp
+
+theorem transformDirection_translation (tx ty tz : Int) (v : Vec 3) (i : Fin 3) :
+    ((Mat.translation tx ty tz).transformDirection v).get i = v.get i := by
+  rw [get_transformDirection]
+  have hm := toMatrix_translation tx ty tz
+  have e : ∀ a b, (Mat.translation tx ty tz).atRC a b = !![1, 0, 0, tx; 0, 1, 0, ty; 0, 0, 1, tz; 0, 0, 0, 1] a b := fun a b => by rw [← hm]; rfl
+  simp only [e]
+  fin_cases i <;> simp
+
+theorem transformPoint_scaling (sx sy sz : Int) (v : Vec 3) (i : Fin 3) :
+    ((Mat.scaling sx sy sz).transformPoint v).get i = ![sx, sy, sz] i * v.get i := by
+  rw [get_transformPoint]
+  have hm := toMatrix_scaling sx sy sz
+  have e : ∀ a b, (Mat.scaling sx sy sz).atRC a b = Matrix.diagonal ![sx, sy, sz, 1] a b := fun a b => by rw [← hm]; rfl
+  simp only [e]
+  fin_cases i <;> simp [Matrix.diagonal]
+
+/-- `infinity_norm` of a matrix with at least one row is the largest absolute row sum -/
+theorem infinityNorm_max {r c : Nat} (m : Mat (r + 1) c) :
+    (∀ i, m.rowAbsSum i ≤ m.infinityNorm) ∧ ∃ i, m.infinityNorm = m.rowAbsSum i := by
+  rw [Lemma.infinityNorm_eq_fold]
+  obtain ⟨_, hle, hex⟩ := Lemma.fold_max longMin m.rowAbsSum
+  refine ⟨hle, ?_⟩
+  rcases hex with h | h
+  · have h0 := hle 0
+    have := Lemma.rowAbsSum_nonneg m 0
+    rw [h] at h0
+    exact absurd (le_trans this h0) (by decide)
+  · exact h
+
+theorem infinityNorm_nonneg {r c : Nat} (m : Mat (r + 1) c) : 0 ≤ m.infinityNorm :=
+  le_trans (Lemma.rowAbsSum_nonneg m 0) ((infinityNorm_max m).1 0)
+
+/-- `rowAbsSum` is `Σ_j |a_ij|` -/
+theorem rowAbsSum_eq {r c : Nat} (m : Mat r c) (i : Fin r) : m.rowAbsSum i = ∑ j, |m.atRC i j| := rfl
 
 /-! ## non-vacuity and the repaired defect -/
 
